@@ -134,3 +134,14 @@ Example hypotheses_nonvacuous :
   /\ c_validate E0 d (PStr [97]) = Accept (PStr [97])
   /\ c_validate E0 d (PObj 101 1) = Accept (PObj 101 1).
 Proof. exact nonvacuous_example. Qed.
+
+(* fast_eq_slow covers compounds with container alternatives: an Either of a Tuple, a List of Either(Int, Str) and a
+   validated tuple meets wf / scope / benign; both paths convert the items alike *)
+Example container_members_nonvacuous :
+  let d := DCompound [DTuple [DInt; DList DFloat 0 3]; DList (DCompound [DInt; DStr]) 1 4; DVTuple [DInt; DInt] None] in
+  let v := PList [PBool true; PStr [97]; PIntSub 3] in
+  wf_desc d = true /\ c03_scope d = true /\ benign E0 d v = true /\
+  c_validate E0 d v = Accept (PList [PInt 1; PStr [97]; PInt 3]) /\
+  py_validate E0 d v = Accept (PList [PInt 1; PStr [97]; PInt 3]) /\
+  c_validate E0 d (PTuple [PInt 1; PList [PInt 2; PBool false]]) = Accept (PTuple [PInt 1; PList [PFloat (FFin false 2000); PFloat (FFin false 0)]]).
+Proof. vm_compute. repeat split. Qed.
